@@ -166,7 +166,8 @@ def gen_config(rng):
 def gen_packet(rng, ctx, clients):
     c = rng.choice(clients)
     m = {"op": 1, "htype": 1, "hops": 0, "xid": rng.randrange(2 ** 32), "secs": rng.randrange(4),
-         "flags": rng.choice([0, 0x8000]), "ciaddr": 0, "yiaddr": 0, "siaddr": 0,
+         "flags": rng.choice([0, 0, 0x8000, 0x8000, 0x8001, 0x7fff, 0x0001, 0xffff, rng.randrange(65536)]),   # reserved bits too: echoed
+         "ciaddr": 0, "yiaddr": 0, "siaddr": 0,
          "giaddr": rng.choice([0, 0, 0, 0xc0000263]), "chaddr": c["mac"], "hlen": len(c["mac"]), "sname": b"", "file": b""}
     opts = {}
     t = rng.choice([1, 1, 1, 3, 3, 3, 3, 2, 4, 5, 7, 8, None, rng.randrange(256)])
@@ -206,7 +207,12 @@ class DhcpHistory(Suite):
         clients = []
         for i in range(nc):
             mac = rng.choice(ctx.macs) if rng.random() < 0.7 else rbytes(rng, 6)
-            clients.append({"mac": mac, "cid": (rbytes(rng, rng.choice([1, 7])) if rng.random() < 0.3 else None), "last": None})
+            cid = rbytes(rng, rng.choice([1, 7])) if rng.random() < 0.3 else None
+            if clients and rng.random() < 0.25:
+                # a client identifier of the usual form (hardware type, then an address) that carries *another* client's
+                # hardware address: still a different client (RFC 2131: the identifier, not its content, names the client)
+                cid = b"\x01" + rng.choice(clients)["mac"]
+            clients.append({"mac": mac, "cid": cid, "last": None})
         # server side
         serverips = []
         for (net, ln) in ctx.subnets:
